@@ -46,6 +46,7 @@ def run(ch: Checker) -> None:
                      'never a module-level or class-level map: otherwise headers computed for one response (Content-Encoding, Content-Length, Connection) leak into later ones', 3)
     ch.rule('C06.9', 'HttpProtocolHandler.handle_events: on every path where neither write side tore down and reading has not been torn down, handle_readables() is called, and '
                      'after it (unless it tore down) the plugin\'s read_from_descriptors(): a request that arrives is read and an upstream answer is fetched', 1)
+    ch.rule('C06.10', 'every input is answered, rejected or waited for -- never spun on: _content_expected is recomputed from every Content-Length header stored (shared with C05.11)', 1)
     ch.rule('C06.5', 'canned packets in responses.py carry the status code they are named after and a non-empty reason', 7)
 
     # ---------------- C06.1 call sites
@@ -287,6 +288,10 @@ def run(ch: Checker) -> None:
         if calls_hr and rt_after_hr is False and plugin is True and not calls_pr:
             bad9 = ('the plugin\'s read_from_descriptors() is skipped after a successful client read: the upstream\'s answer is never fetched', p.describe(18))
     ch.check(bad9 is None and n9 > 0, 'C06.9', he9, 'read side runs', 'client and plugin descriptors are read on all %d path(s) where nothing tore down' % n9, bad9[0] if bad9 else 'no such path', witness=bad9[1] if bad9 else None)
+
+    # ---------------- C06.10 (shared with C05.11)
+    from .c05 import content_length_flag_check
+    content_length_flag_check(ch, 'C06.10')
 
     # ---------------- C06.6 per-message header maps
     from .common import fresh_headers_check
